@@ -26,8 +26,13 @@ func main() {
 	dump := flag.String("dump", "", "debug: dump canonical forms of a function (e.g. raft:(*Raft).onVoteRequest)")
 	explain := flag.String("explain", "", "print a stored violation file")
 	list := flag.Bool("list", false, "list registered properties")
+	listFuncs := flag.Bool("list-funcs", false, "dev: print the names of all top-level source functions of the repository (for internal/core/known_funcs.go)")
 	overlay := flag.String("overlay", "", "dev only (mutation sweep): ORIG=REPLACEMENT substitutes one source file's contents")
+	noInline := flag.Bool("no-inline", false, "dev: do not expand calls to new helpers before analysing (tests the fallback treatment)")
+	showNorm := flag.String("show-normalized", "", "dev: write the normalised source of FILE (as analysed) to stdout")
 	flag.Parse()
+	core.NoInline = *noInline
+	showNormalized = *showNorm
 	if *overlay != "" {
 		kv := strings.SplitN(*overlay, "=", 2)
 		b, err := os.ReadFile(kv[1])
@@ -53,6 +58,26 @@ func main() {
 			os.Exit(2)
 		}
 		fmt.Print(string(b))
+		return
+	}
+	if *listFuncs {
+		p := core.Load(*repo, "trace")
+		seen := map[string]bool{}
+		for _, pr := range []*core.Program{p, core.Load(*repo, "")} {
+			for _, fn := range pr.Funcs() {
+				if fn.Parent() == nil && !seen[fn.String()] {
+					seen[fn.String()] = true
+				}
+			}
+		}
+		var names []string
+		for n := range seen {
+			names = append(names, n)
+		}
+		sort.Strings(names)
+		for _, n := range names {
+			fmt.Println(n)
+		}
 		return
 	}
 	if *list {
@@ -112,6 +137,8 @@ func runAll(tier, repo, verif string) (worst int) {
 	return worst
 }
 
+var showNormalized string
+
 func flagSet(name string) bool {
 	set := false
 	flag.Visit(func(f *flag.Flag) {
@@ -134,6 +161,14 @@ func run(prop, tier, repo, verif, dump string, start time.Time) (code int) {
 		}
 	}()
 	p := core.Load(repo, "")
+	if showNormalized != "" {
+		for k, v := range p.Source {
+			if strings.HasSuffix(k, showNormalized) {
+				fmt.Printf("%s", v)
+			}
+		}
+		return 0
+	}
 	if dump != "" {
 		dumpFunc(p, dump)
 		return 0
